@@ -243,3 +243,64 @@ def inline_single_defs(fn_node, expr, keep=(), depth=3):
             break
         expr = new
     return expr
+
+
+def publish_normalised(fn_node):
+    """Undo two value-neutral refactorings of a method that builds object state, so that rules reading `self.<attr>...`
+    statements find them:
+      * alias of an attribute:  `law = self._law` (single definition, `self._law` never stored in the function)
+        -> every `law` is replaced by `self._law`;
+      * build, then publish:    `t = <expr>; t.col = ...; self._tab = t` (single definition of `t`, single store of
+        `self._tab`, which is the last statement mentioning `t`) -> `self._tab = <expr>; self._tab.col = ...`.
+    Returns a new FunctionDef (or the same object when nothing applies)."""
+    import ast as _ast
+    stores = {}
+    for n in _ast.walk(fn_node):
+        if isinstance(n, _ast.Name) and isinstance(n.ctx, (_ast.Store, _ast.Del)):
+            stores[n.id] = stores.get(n.id, 0) + 1
+    params = {a.arg for a in fn_node.args.args + fn_node.args.kwonlyargs}
+    attr_stores = {}
+    for n in _ast.walk(fn_node):
+        if isinstance(n, _ast.Attribute) and isinstance(n.ctx, _ast.Store) and is_self_attr(n):
+            attr_stores[n.attr] = attr_stores.get(n.attr, 0) + 1
+    alias, publish = {}, {}
+    body_stmts = [s for s in _ast.walk(fn_node) if isinstance(s, _ast.Assign) and len(s.targets) == 1]
+    for s in body_stmts:
+        t, v = s.targets[0], s.value
+        if isinstance(t, _ast.Name) and stores.get(t.id) == 1 and t.id not in params and is_self_attr(v) and \
+                v.attr not in attr_stores:
+            alias[t.id] = (s, v)
+    for s in body_stmts:
+        t, v = s.targets[0], s.value
+        if is_self_attr(t) and isinstance(v, _ast.Name) and stores.get(v.id) == 1 and v.id not in params and \
+                attr_stores.get(t.attr) == 1 and v.id not in alias:
+            uses = [n for n in _ast.walk(fn_node) if isinstance(n, _ast.Name) and n.id == v.id]
+            reads_attr = [n for n in _ast.walk(fn_node) if is_self_attr(n, t.attr) and n is not t]
+            defs = [d for d in body_stmts if isinstance(d.targets[0], _ast.Name) and d.targets[0].id == v.id]
+            if len(defs) == 1 and all(u.lineno <= s.lineno for u in uses) and all(r.lineno > s.lineno for r in reads_attr) \
+                    and not any(p[0] == t.attr for p in publish.values()):
+                publish[v.id] = (t.attr, s, defs[0])
+    if not alias and not publish:
+        return fn_node
+    drop = {id(a[0]) for a in alias.values()} | {id(p[1]) for p in publish.values()}
+    orig_ids = {}
+
+    class T(_ast.NodeTransformer):
+        def visit_Assign(self, n):
+            if orig_ids.get(id(n)) in drop:
+                return None
+            return self.generic_visit(n)
+
+        def visit_Name(self, n):
+            if n.id in alias:
+                return clone(alias[n.id][1])
+            if n.id in publish:
+                return _ast.copy_location(_ast.Attribute(value=_ast.Name(id="self", ctx=_ast.Load()), attr=publish[n.id][0], ctx=n.ctx), n)
+            return n
+    import copy as _copy
+    new = _copy.deepcopy(fn_node)
+    for a, b in zip(_ast.walk(fn_node), _ast.walk(new)):
+        orig_ids[id(b)] = id(a)
+    new = T().visit(new)
+    _ast.fix_missing_locations(new)
+    return new
